@@ -40,6 +40,9 @@ type FuncContract struct {
 	ModifiesNothing bool
 	ModifiesAll bool
 	PanicsIf []*Clause
+	Secrets  []string  // parameters carrying data that must not flow into error reasons (C19)
+	Untainted bool     // the result carries no information from the arguments (assumed for callbacks / proved with ReturnsUntainted)
+	ReturnsUntainted bool // obligation: what the function returns is not derived from its secret parameters
 	Assuming []*Clause // scope of the function's own proof; callers get `assuming ==> ensures`
 	Defines  []*Clause // definitions of abstract verdict predicates: assumed at call sites, never an obligation
 	Preserves []*Clause // with `modifies *`: locations proved untouched by a call-graph scan
@@ -107,6 +110,15 @@ type Contracts struct {
 	Guards   map[string]GuardDecl // "pkgpath::global" -> mutex
 	NonNilGlobals map[string]bool // "pkgpath::global": assigned once, in the package initializer, a non-nil value
 	GlobalTypes   map[string]string // optional dynamic type of such a global ("name:Type")
+	Extensions    []*FuncContract   // `extend func`: clauses merged into the base contract
+	AllMethods    []AllMethodsDecl  // every method of a type must be under contract for a property
+	MapNonNil     map[string]bool   // "pkgpath::global": map whose stored values are non-nil
+}
+
+type AllMethodsDecl struct {
+	Pkg, Type string
+	Tags      []string
+	Why       string
 }
 
 type GuardDecl struct {
@@ -115,17 +127,17 @@ type GuardDecl struct {
 }
 
 func newContracts() *Contracts {
-	return &Contracts{Funcs: map[string]*FuncContract{}, Specs: map[string]*SpecDecl{}, Ghosts: map[string]*GhostDecl{}, Guards: map[string]GuardDecl{}, NonNilGlobals: map[string]bool{}, GlobalTypes: map[string]string{}}
+	return &Contracts{Funcs: map[string]*FuncContract{}, Specs: map[string]*SpecDecl{}, Ghosts: map[string]*GhostDecl{}, Guards: map[string]GuardDecl{}, NonNilGlobals: map[string]bool{}, GlobalTypes: map[string]string{}, MapNonNil: map[string]bool{}}
 }
 
 // classOverride: struct types (pkgname.Type) whose components belong to a class other than
 // their package's (e.g. per-call error objects are not part of the shared document).
 var classOverride = map[string]string{}
 
-var declKeywords = map[string]bool{"global": true, "guarded": true, "class": true, "func": true, "iface": true, "fnfield": true, "pred": true, "spec": true, "axiom": true,
+var declKeywords = map[string]bool{"extend": true, "allmethods": true, "global": true, "guarded": true, "class": true, "func": true, "iface": true, "fnfield": true, "pred": true, "spec": true, "axiom": true,
 	"lemma": true, "ghost": true, "generate": true, "trusted": true}
 var clauseKeywords = map[string]bool{"requires": true, "ensures": true, "modifies": true, "panics_if": true, "loop": true,
-	"tag": true, "pure": true, "records": true, "preserves": true, "defines": true, "assuming": true, "fresh": true, "reads": true, "option": true, "nosafety": true}
+	"tag": true, "pure": true, "records": true, "preserves": true, "defines": true, "assuming": true, "secret": true, "untainted": true, "returns-untainted": true, "fresh": true, "reads": true, "option": true, "nosafety": true}
 
 type rawLine struct {
 	text string
@@ -182,6 +194,16 @@ func (cs *Contracts) loadContractFile(path, pkgPath string) error {
 		fail := func(f string, a ...any) error {
 			return fmt.Errorf("%s:%d: %s", l.file, l.line, fmt.Sprintf(f, a...))
 		}
+		isExt := false
+		if first == "extend" {
+			w := firstWord(rest)
+			rest = strings.TrimSpace(rest[len(w):])
+			if w != "func" && w != "iface" && w != "fnfield" {
+				return fail("expected 'extend func|iface|fnfield'")
+			}
+			first = w
+			isExt = true
+		}
 		switch first {
 		case "func", "iface", "fnfield", "trusted":
 			kind := first
@@ -208,6 +230,11 @@ func (cs *Contracts) loadContractFile(path, pkgPath string) error {
 			if kind == "trusted" {
 				id = "::" + key
 				cur.Pkg = ""
+			}
+			if isExt {
+				cs.Extensions = append(cs.Extensions, cur)
+				cur.Options["$id"] = id
+				continue
 			}
 			if _, dup := cs.Funcs[id]; dup {
 				return fail("duplicate contract for %s", id)
@@ -333,6 +360,22 @@ func (cs *Contracts) loadContractFile(path, pkgPath string) error {
 				return fail("tag outside a func declaration")
 			}
 			cur.Tags = append(cur.Tags, strings.Fields(rest)...)
+		case "secret":
+			if cur == nil {
+				return fail("secret outside a func declaration")
+			}
+			cur.Secrets = append(cur.Secrets, strings.Fields(rest)...)
+		case "untainted":
+			if cur == nil {
+				return fail("untainted outside a func declaration")
+			}
+			cur.Untainted = true
+		case "returns-untainted":
+			if cur == nil {
+				return fail("returns-untainted outside a func declaration")
+			}
+			cur.ReturnsUntainted = true
+			cur.Untainted = true
 		case "pure":
 			if cur == nil {
 				return fail("pure outside a func declaration")
@@ -395,9 +438,26 @@ func (cs *Contracts) loadContractFile(path, pkgPath string) error {
 				return fail("%v", err)
 			}
 			cs.Ghosts[f[1]] = &GhostDecl{Name: f[1], Pkg: pkgPath, Ty: ty}
+		case "allmethods":
+			cur = nil
+			f := strings.Fields(rest)
+			if len(f) < 2 {
+				return fail("expected: allmethods <Type> @TAG...")
+			}
+			d := AllMethodsDecl{Pkg: pkgPath, Type: f[0]}
+			for _, t := range f[1:] {
+				d.Tags = append(d.Tags, strings.TrimPrefix(t, "@"))
+			}
+			cs.AllMethods = append(cs.AllMethods, d)
 		case "global":
 			cur = nil
 			f := strings.Fields(rest)
+			if len(f) >= 2 && f[0] == "mapvalues-nonnil" {
+				for _, n := range f[1:] {
+					cs.MapNonNil[pkgPath+"::"+strings.TrimSuffix(n, ",")] = true
+				}
+				continue
+			}
 			if len(f) < 2 || f[0] != "nonnil" {
 				return fail("expected: global nonnil <name>...")
 			}
@@ -578,6 +638,35 @@ func loadAllContracts(repo, verif string, pkgDirs map[string]string) (*Contracts
 		for _, f := range files {
 			if err := cs.loadContractFile(f, p); err != nil {
 				return nil, err
+			}
+		}
+	}
+	for _, ext := range cs.Extensions {
+		id := ext.Options["$id"]
+		base := cs.Funcs[id]
+		if base == nil {
+			return nil, fmt.Errorf("%s:%d: extend func %s: no such contract", ext.File, ext.Line, id)
+		}
+		base.Requires = append(base.Requires, ext.Requires...)
+		base.Ensures = append(base.Ensures, ext.Ensures...)
+		base.Assuming = append(base.Assuming, ext.Assuming...)
+		base.Defines = append(base.Defines, ext.Defines...)
+		base.Preserves = append(base.Preserves, ext.Preserves...)
+		base.Modifies = append(base.Modifies, ext.Modifies...)
+		base.Tags = append(base.Tags, ext.Tags...)
+		base.Secrets = append(base.Secrets, ext.Secrets...)
+		if ext.Untainted {
+			base.Untainted = true
+		}
+		if ext.ReturnsUntainted {
+			base.ReturnsUntainted = true
+		}
+		for k, v := range ext.Loops {
+			if b := base.Loops[k]; b != nil {
+				b.Invariants = append(b.Invariants, v.Invariants...)
+				b.Assumes = append(b.Assumes, v.Assumes...)
+			} else {
+				base.Loops[k] = v
 			}
 		}
 	}
